@@ -365,12 +365,16 @@ func genConc(t *rapid.T) concCase {
 		var calls []call
 		for i := 0; i < m; i++ {
 			cl := call{FC: rapid.SampledFrom(fcs).Draw(t, "fc"), Plan: rapid.Uint64().Draw(t, "plan"), Pause: rapid.IntRange(0, 5).Draw(t, "pause")}
-			if withCancel && c.Kind != "serial" {
+			if withCancel {
 				if rapid.IntRange(0, 2).Draw(t, "delayed") == 0 {
 					cl.DelayUs = rapid.SampledFrom([]int{500, 1500, 3000}).Draw(t, "delay_us")
 				}
 				if rapid.IntRange(0, 3).Draw(t, "cancellable") == 0 {
 					cl.CancelUs = rapid.SampledFrom([]int{1, 100, 400, 1000, 2500}).Draw(t, "cancel_us")
+					if c.Kind == "serial" {
+						// the serial client sleeps 30 ms after its write before it looks at the context again
+						cl.CancelUs = rapid.SampledFrom([]int{1, 2000, 20000, 45000}).Draw(t, "cancel_us_serial")
+					}
 				}
 			}
 			calls = append(calls, cl)
